@@ -31,7 +31,7 @@
 //!
 //! Observables compared with the expectation of a step (only the keys that are present):
 //!   class  ok | err | err:Kind | any | noncrash          emit  values printed by the host fn `emit`
-//!   val    printed last value                             host  host-side value (JSON rendering)
+//!   val    printed last value                             back  host-side value (JSON rendering)
 //!   calls  invocations of recording host functions [{"fn": name, "args": [json ..]}]
 //!   acc    accesses to lent host objects ["A.get_mut" ..]
 //! An access to a host object outside its lending scope is logged as "<obj>.<method>!LATE" and
@@ -72,8 +72,8 @@ pub struct Inner {
     scope: Arc<AtomicI64>,
 }
 
-/// The host object that is lent.  `scope` is the id of the guard it is currently lent under, 0 when
-/// the host has it back ("poisoned" for the script).
+/// The host object that is lent.  `scope` is the number of guards it is currently lent under (shared
+/// loans count), 0 when the host has it back ("poisoned" for the script).
 pub struct Cell {
     name: String,
     value: i64,
@@ -437,7 +437,7 @@ impl<'c> Interp<'c> {
             }
         }
         if why.is_none() && class == "ok" {
-            if let Some(exp) = st.get("host").filter(|x| !x.is_null()) {
+            if let Some(exp) = st.get("back").filter(|x| !x.is_null()) {
                 if got.get("host") != Some(exp) {
                     why = Some(format!("host: expected {exp} got {}", got.get("host").cloned().unwrap_or(Value::Null)));
                 }
@@ -497,7 +497,7 @@ impl<'c> Interp<'c> {
                     for r in &refs {
                         let o = self.obj(&s(r, "obj"));
                         let cell: &'static mut Cell = unsafe { &mut *o };
-                        cell.scope.store(g, Ordering::SeqCst);
+                        cell.scope.fetch_add(1, Ordering::SeqCst);
                         scopes.push(cell.scope.clone());
                         let ro = s(r, "mode") == "ro";
                         guard = Some(match (guard.take(), ro) {
@@ -513,7 +513,7 @@ impl<'c> Interp<'c> {
                 "drop" => {
                     let rec = self.guards.remove(&g).ok_or("drop of unknown guard")?;
                     drop(rec.guard);
-                    for sc in &rec.scopes { sc.store(0, Ordering::SeqCst); }
+                    for sc in &rec.scopes { sc.fetch_sub(1, Ordering::SeqCst); }
                     self.settle(idx, &st, Self::ok_got());
                 }
                 "enter" => {
@@ -538,7 +538,7 @@ impl<'c> Interp<'c> {
                     } else {
                         rec.guard.consume_once(body)
                     };
-                    for sc in &rec.scopes { sc.store(0, Ordering::SeqCst); }
+                    for sc in &rec.scopes { sc.fetch_sub(1, Ordering::SeqCst); }
                     r?;
                 }
                 "exit" => {
@@ -550,14 +550,14 @@ impl<'c> Interp<'c> {
                     let k = self.eng(&st)?;
                     let o = self.obj(&s(&st, "obj"));
                     let cell: &'static mut Cell = unsafe { &mut *o };
-                    cell.scope.store(9, Ordering::SeqCst);
+                    cell.scope.fetch_add(1, Ordering::SeqCst);
                     let sc = cell.scope.clone();
                     let script = s(&st, "script").replace("@@", &self.uniq);
                     let bind = s(&st, "bind");
                     self.log.lock().unwrap().clear();
                     let e = self.engine(k);
                     let r = catch_unwind(AssertUnwindSafe(|| e.run_with_reference::<Cell, Cell>(cell, &bind, &script)));
-                    sc.store(0, Ordering::SeqCst);
+                    sc.fetch_sub(1, Ordering::SeqCst);
                     let emit = self.log.lock().unwrap().clone();
                     let got = match r {
                         Ok(Ok(v)) => json!({"class": "ok", "emit": emit, "val": v.to_string(), "msg": null}),
@@ -604,7 +604,6 @@ impl<'c> Interp<'c> {
                     let k = self.eng(&st)?;
                     let ty = s(&st, "ty");
                     let host = st.get("host").cloned().unwrap_or(Value::Null);
-                    // the expected host value of these steps is the value that went in
                     let f = s(&st, "fn").replace("@@", &self.uniq);
                     let name = s(&st, "name").replace("@@", &self.uniq);
                     self.log.lock().unwrap().clear();
@@ -721,30 +720,52 @@ fn main() {
         ACCESS.lock().unwrap().clear();
         CALLS.lock().unwrap().clear();
         KEPT.lock().unwrap().clear();
-        let mut it = Interp {
-            engines, objs: HashMap::new(), guards: HashMap::new(), steps: &steps, uniq: format!("{n}"),
-            log: log.clone(), gots: Vec::new(), why: String::new(), bad: 0, tick: current.clone(), id: id.clone(),
+        // Every behaviour runs on its own thread: the nursery of lent references is a thread-local of
+        // steel-core, so a fresh thread gives every behaviour an empty one (whatever an earlier
+        // behaviour left behind).  A panic of the thread is an observation.
+        struct Shared([*mut Engine; 2]);
+        unsafe impl Send for Shared {}
+        let shared = Shared(engines);
+        let (log2, cur2, id2, steps_ref) = (log.clone(), current.clone(), id.clone(), &steps);
+        let joined = std::thread::scope(|sc| {
+            std::thread::Builder::new()
+                .stack_size(256 << 20)
+                .spawn_scoped(sc, move || {
+                    let shared = shared;
+                    let mut it = Interp {
+                        engines: shared.0, objs: HashMap::new(), guards: HashMap::new(), steps: steps_ref, uniq: format!("{n}"),
+                        log: log2, gots: Vec::new(), why: String::new(), bad: 0, tick: cur2, id: id2,
+                    };
+                    let mut pos = 0usize;
+                    let r = catch_unwind(AssertUnwindSafe(|| it.run(&mut pos, None)))
+                        .unwrap_or_else(|p| {
+                            let m = p.downcast_ref::<String>().cloned()
+                                .or_else(|| p.downcast_ref::<&str>().map(|x| x.to_string())).unwrap_or_default();
+                            Err(format!("panic in a host step: {m}"))
+                        });
+                    // guards the behaviour left open are dropped in creation order
+                    let mut left: Vec<i64> = it.guards.keys().cloned().collect();
+                    left.sort();
+                    for g in left {
+                        if let Some(rec) = it.guards.remove(&g) {
+                            let _ = catch_unwind(AssertUnwindSafe(|| drop(rec.guard)));
+                            for sc in &rec.scopes { sc.fetch_sub(1, Ordering::SeqCst); }
+                        }
+                    }
+                    (r, std::mem::take(&mut it.why), it.bad, std::mem::take(&mut it.gots), pos)
+                })
+                .expect("spawn")
+                .join()
+        });
+        let (r, mut why, mut bad, gots, pos) = match joined {
+            Ok(x) => x,
+            Err(_) => (Err("panic".to_string()), "panic outside a step".to_string(), 0, Vec::new(), 0),
         };
-        let mut pos = 0usize;
-        let r = it.run(&mut pos, None);
-        // guards the behaviour left open are dropped in creation order
-        let mut left: Vec<i64> = it.guards.keys().cloned().collect();
-        left.sort();
-        for g in left {
-            if let Some(rec) = it.guards.remove(&g) {
-                drop(rec.guard);
-                for sc in &rec.scopes { sc.store(0, Ordering::SeqCst); }
-            }
-        }
-        let mut why = std::mem::take(&mut it.why);
-        let mut bad = it.bad;
-        let gots = std::mem::take(&mut it.gots);
         let mut poisoned = false;
         if let Err(m) = r {
-            if m == "panic" { poisoned = true; }
+            if m.starts_with("panic") { poisoned = true; }
             if why.is_empty() { why = format!("replayer: {m}"); bad = pos.saturating_sub(1); }
         }
-        drop(it);
         *current.lock().unwrap() = None;
         if poisoned {
             // a panic may leave an engine in an arbitrary state; replace both
